@@ -138,7 +138,7 @@ Next ==
                /\ Chk({"C16"}, "ValidProgramSolved",
                       (\E x \in ExpectsFor(ev.name) : x.kind \in {"arith", "bool"}) => ev.verdict = "solved")
                /\ Chk({"C17"}, "SolvableIffSomeInstanceFits",
-                      \A x \in {y \in ExpectsFor(ev.name) : y.kind = "obj"} : (x.sat = 1) = (ev.verdict = "solved"))
+                      \A x \in {y \in ExpectsFor(ev.name) : y.kind \in {"obj", "verdict"}} : (x.sat = 1) = (ev.verdict = "solved"))
                /\ verdicts' = verdicts + 1 /\ xs' = X0 /\ UNCHANGED <<solved, expects>>
           [] ev.e = "solution" ->
                /\ SolutionOK(ev)
